@@ -264,7 +264,7 @@ def main(tier):
     ev = vlib.Evidence(PID, tier)
     ev.cov["rule"] = RULE
     ev.assumptions = ["files live under /verif/.build/work; the use() model follows the documented search order (first use-path that has the file, each resolved path once)"]
-    n = 4800 if tier == "quick" else 100000
+    n = 4800 if tier == "quick" else 80000
     failures = hyp.run("c19", ev, tier, n)
     confirmed = hyp.confirm("c19", failures, PID)
     for p, what in confirmed:
